@@ -227,7 +227,18 @@ def kappaX1CharSrc (in_grp1 : Bool) : Except Unit Char :=
 /-- accumulator's initial value | how the function's last statement uses the recoded string -/
 def kappaX1CharSrcFrame : String := "''|Sequence(newseq).kappa()"
 
+/-- translated from localcider/backend/sequence.py:Sequence.sequence_charge_decoration (loop nest at line 406) -/
+def scdNestOuterLo (len : Int) : Int := (2 : Int)
+def scdNestOuterHi (len : Int) : Int := (len + (1 : Int))
+def scdNestInnerLo (m : Int) (len : Int) : Int := (1 : Int)
+def scdNestInnerHi (m : Int) (len : Int) : Int := m
+def scdNestIdxA (m : Int) (n : Int) (len : Int) : Int := (m - (1 : Int))
+def scdNestIdxB (m : Int) (n : Int) (len : Int) : Int := (n - (1 : Int))
+def scdNestDist (m : Int) (n : Int) (len : Int) : Int := (m - n)
+def scdNestDenom (len : Int) : Int := len
+def scdNestExp : Rat := (1 : Rat) / 2
+
 /-- which decision functions could be translated on this run -/
-def translatedDecisions : List String := ["phasePlotRegion", "kappaDecision", "sigmaDecision", "checkWindow", "verifyPH", "insideRelevant", "fplusSrc", "fminusSrc", "fcrSrc", "ncprSrc", "ferSrc", "mncSrc", "deltaSrc", "deltaTermSrc", "flanksNCPR", "flanksFCR", "flanksSigma", "flanksHydro", "flanksHydro2", "flanksDensity", "omegaCharSrc", "omegaSeqCharSrc", "kappaX2CharSrc", "kappaX1CharSrc"]
+def translatedDecisions : List String := ["phasePlotRegion", "kappaDecision", "sigmaDecision", "checkWindow", "verifyPH", "insideRelevant", "fplusSrc", "fminusSrc", "fcrSrc", "ncprSrc", "ferSrc", "mncSrc", "deltaSrc", "deltaTermSrc", "flanksNCPR", "flanksFCR", "flanksSigma", "flanksHydro", "flanksHydro2", "flanksDensity", "omegaCharSrc", "omegaSeqCharSrc", "kappaX2CharSrc", "kappaX1CharSrc", "scdNest"]
 
 end Cider.Gen
